@@ -93,9 +93,23 @@ def _observe(s, both=True):
 
 def _take(d):
     """a copy of the returned mapping for the comparison; the returned object itself is then edited the way a caller
-    may legitimately edit its own result (add a key, change the charge) — a later parse must not see those edits"""
+    may legitimately edit its own result (add a key, change the charge) — a later parse must not see those edits.
+    Before that the mapping is *read* the way a caller reads it: looking up an element that is not in the formula (or the
+    charge of a neutral species) finds nothing and leaves the mapping as it is ("no other keys")"""
     if not isinstance(d, dict):
         return d
+    before = dict(d)
+    for absent in (998, 0):
+        if absent not in before:
+            try:
+                d[absent]
+                found = True
+            except KeyError:
+                found = False
+            if found or dict(d) != before:
+                c = dict(d)
+                c["looked-up-absent-key-%d" % absent] = "found" if found else "inserted"
+                return c
     c = dict(d)
     d[0] = 55
     d[999] = 1
@@ -221,6 +235,26 @@ def run_chunk(chunk, tier):
                     res.transitions += 1
                     res.nontrivial += 1
                     _check_accept(res, s, ref, dict(layer="G", s=s, ref={str(k): v for k, v in ref.items()}))
+        # the `prefixes=` argument (an iterable of the prefix strings to recognise) in every container type, one-shot ones included
+        from chempy.util.parsing import formula_to_composition
+
+        allp = [g + "-" for g in F.GREEK] + ["."]
+        kinds = [("tuple", tuple), ("list", list), ("set", set), ("dict-keys", lambda x: dict.fromkeys(x).keys()), ("iterator", iter), ("generator", lambda x: (y for y in x)),
+                 ("reversed", reversed), ("map", lambda x: map(str, x))]
+        for s_, ref in ((".OH", {8: 1, 1: 1}), ("alpha-FeOOH", {26: 1, 8: 2, 1: 1}), (".NO2-(aq)", {7: 1, 8: 2, 0: -1}), ("H2O", {1: 2, 8: 1})):
+            for kname, mk in kinds:
+                res.states += 1
+                res.transitions += 1
+                res.evaluations += 1
+                res.nontrivial += 1
+                try:
+                    got = _take(formula_to_composition(s_, prefixes=mk(allp)))
+                except Exception as e:
+                    got = "EXC %s" % type(e).__name__
+                if not _same(got, ref):
+                    res.violation("C01|G|formula_to_composition|prefixes-container|%s" % ("rejected" if isinstance(got, str) else "misread"), "formula_to_composition(%r, prefixes=<%s of the prefix strings>) = %r, written composition is %r" % (
+                        s_, kname, got, ref), dict(layer="GP", s=s_, kname=kname, ref={str(k): v for k, v in ref.items()}), got, ref)
+                res.outcomes["prefixes-container-ok" if _same(got, ref) else "prefixes-container-WRONG"] += 1
         res.sample(dict(layer="G", example="gamma-FeOOH(s)"))
     elif kind == "D":
         for depth in range(1, 9):
@@ -378,6 +412,10 @@ def replay(case):
     s = case["s"]
     if case["layer"] == "SP":
         return _replay_sp(case)
+    if case["layer"] == "GP":
+        sub = run_chunk(("G",), "quick")
+        vs = [v for v in sub.violations if v["case"].get("layer") == "GP" and v["case"]["s"] == case["s"] and v["case"]["kname"] == case["kname"]]
+        return dict(key=vs[0]["key"], what=vs[0]["what"], observed=vs[0]["observed"], expected=vs[0]["expected"]) if vs else None
     if case["layer"] in ("C",) or case.get("why"):
         _check_reject(res, s, case)
     else:
